@@ -69,10 +69,10 @@ Proof.
   destruct r as [|b r']; [destruct HA|].
   pose proof (incr_head _ _ _ HI) as Hab. pose proof (incr_tail _ _ HI) as HI'.
   cbn [areas_from] in HA. destruct (b - a <=? 1) eqn:E.
-  - apply (IH _ _ _ _ HI') in HA. cbn [hd start] in *. destruct f; lia.
+  - apply (IH _ _ _ _ HI') in HA. unfold start in *; cbn [hd] in *. destruct f; lia.
   - apply Nat.leb_gt in E. destruct HA as [HA|HA].
     + subst A. unfold a_lo, start; cbn. destruct f; cbn; lia.
-    + apply (IH _ _ _ _ HI') in HA. cbn [hd start] in *. destruct f; lia.
+    + apply (IH _ _ _ _ HI') in HA. unfold start in *; cbn [hd] in *. destruct f; lia.
 Qed.
 
 (* two subareas of the same list never assign the same element *)
@@ -126,6 +126,17 @@ Qed.
 (* ------------------------------------------------------------------ *)
 (* C16_partition *)
 
+Lemma areas_from_cons2 k j f a b r :
+  areas_from k j f (a :: b :: r) =
+  if b - a <=? 1 then areas_from (S k) j true (b :: r)
+  else mkA a b k j f :: areas_from (S k) (S j) false (b :: r).
+Proof. reflexivity. Qed.
+
+Lemma ok_from_cons2 joined a b r :
+  ok_from joined (a :: b :: r) =
+  if b - a <=? 1 then joined && ok_from false (b :: r) else ok_from true (b :: r).
+Proof. reflexivity. Qed.
+
 Lemma partition_gen : forall l k j joined, incr l -> l <> [] -> ok_from joined l = true ->
   concat (map span (areas_from k j (negb joined) l)) =
   seq (start (negb joined) (hd 0 l)) (S (last l 0) - start (negb joined) (hd 0 l)).
@@ -136,13 +147,14 @@ Proof.
   - pose proof (incr_head _ _ _ HI) as Hab. pose proof (incr_tail _ _ HI) as HI'.
     pose proof (incr_last_ge _ _ HI') as HL.
     change (last (a :: b :: r') 0) with (last (b :: r') 0).
-    cbn [ok_from] in HO. cbn [areas_from hd]. destruct (b - a <=? 1) eqn:E.
+    rewrite ok_from_cons2 in HO. rewrite areas_from_cons2. cbn [hd]. destruct (b - a <=? 1) eqn:E.
     + apply andb_true_iff in HO as [HJ HO]. subst joined.
       apply Nat.leb_le in E. assert (b = S a) by lia. subst b.
-      rewrite (IH (S k) j false HI' ltac:(discriminate) HO). cbn [negb start hd]. reflexivity.
+      pose proof (IH (S k) j false HI' ltac:(discriminate) HO) as P. cbn [negb] in P.
+      rewrite P. unfold start. cbn [negb hd]. reflexivity.
     + apply Nat.leb_gt in E.
-      cbn [map concat]. rewrite (IH (S k) (S j) true HI' ltac:(discriminate) HO).
-      cbn [negb start hd]. unfold span, a_lo; cbn [a_first a_ia a_ib].
+      cbn [map concat]. pose proof (IH (S k) (S j) true HI' ltac:(discriminate) HO) as P. cbn [negb] in P.
+      rewrite P. unfold start. cbn [negb hd]. unfold span, a_lo; cbn [a_first a_ia a_ib].
       set (lo := if negb joined then a else S a).
       assert (lo <= b) by (unfold lo; destruct joined; cbn; lia).
       replace (S (last (b :: r') 0) - lo) with ((b + 1 - lo) + (S (last (b :: r') 0) - S b)) by lia.
@@ -232,11 +244,15 @@ Proof. unfold raw1. rewrite map_length, linspace_length. reflexivity. Qed.
 Lemma nth_tl {X} (l : list X) n d : nth n (tl l) d = nth (S n) l d.
 Proof. destruct l; [destruct n; reflexivity|reflexivity]. Qed.
 
-Lemma nth_map_cell (l : list Q) n : n < length l -> nth n (map (fun x => [x]) l) [] = [nth n l 0%Q].
+Lemma nth_map_gen {X Y} (f : X -> Y) (l : list X) d d' : forall n, n < length l ->
+  nth n (map f l) d' = f (nth n l d).
 Proof.
-  intro H. rewrite (nth_indep _ [] ((fun x => [x]) 0%Q)) by (rewrite map_length; exact H).
-  rewrite map_nth. reflexivity.
+  induction l as [|x r IH]; intros n H; cbn in H; [lia|].
+  destruct n; cbn; [reflexivity|]. apply IH. lia.
 Qed.
+
+Lemma nth_map_cell (l : list Q) n : n < length l -> nth n (map (fun x => [x]) l) [] = [nth n l 0%Q].
+Proof. intro H. apply (nth_map_gen (fun x : Q => [x])). exact H. Qed.
 
 (* coordinates: the element at uncompressed index i of a subarea is raw point i - ia *)
 Lemma block1_coord m tp A i : a_ia A < a_ib A -> cov A i = true ->
@@ -249,11 +265,14 @@ Proof.
     by (unfold s_size, a_shape; destruct (a_first A); cbn; lia).
   unfold a_lo in *. destruct (a_first A) eqn:EF; cbn [trim].
   - rewrite nth_map_cell by (rewrite raw1_length; lia).
-    rewrite raw1_nth by lia. rewrite HS. repeat f_equal; lia.
+    rewrite raw1_nth by lia. rewrite HS.
+    replace (a_ib A - a_ia A + 1 - 1) with (a_ib A - a_ia A) by lia. reflexivity.
   - rewrite nth_map_cell by (destruct (raw1 false m tp A) eqn:ER;
       [pose proof (raw1_length false m tp A) as L; rewrite ER in L; cbn in L; lia|
        pose proof (raw1_length false m tp A) as L; rewrite ER in L; cbn in L; cbn; lia]).
-    rewrite nth_tl. rewrite raw1_nth by lia. rewrite HS. repeat f_equal; lia.
+    rewrite nth_tl. rewrite raw1_nth by lia. rewrite HS.
+    replace (a_ib A - a_ia A + 1 - 1) with (a_ib A - a_ia A) by lia.
+    replace (S (i - S (a_ia A))) with (i - a_ia A) by lia. reflexivity.
 Qed.
 
 (* ------------------------------------------------------------------ *)
@@ -296,9 +315,14 @@ Proof. revert m; induction l; destruct m; cbn; intros; try discriminate; [congru
 
 Lemma nth_error_prev (l : list nat) m a : nth_error l (S m) = Some a -> nth_error l m = Some (nth m l 0).
 Proof.
-  revert m; induction l as [|x r IH]; destruct m; cbn; intros; try discriminate; [reflexivity| |].
-  - destruct r; [discriminate|reflexivity].
-  - apply IH. exact H.
+  revert m; induction l as [|x r IH]; intros m H; [destruct m; discriminate|].
+  destruct m as [|m]; [reflexivity|]. cbn [nth_error nth]. apply IH. exact H.
+Qed.
+
+Lemma cov_mk a b k j (f : bool) i : (if f then a else S a) <= i <= b -> cov (mkA a b k j f) i = true.
+Proof.
+  intro H. unfold cov, a_lo. cbn [a_first a_ia a_ib].
+  apply andb_true_iff; split; apply Nat.leb_le; lia.
 Qed.
 
 Lemma interp_spec meth tpi tp m a b i :
@@ -314,14 +338,14 @@ Proof.
   destruct (Nat.eq_dec i a) as [Eia|Nia].
   2: { (* strictly inside, or the right tie point: this subarea assigns it *)
     assert (HC : cov A i = true).
-    { unfold cov, a_lo, A; cbn. apply andb_true_iff; split; apply Nat.leb_le; destruct (first_at true tpi m); lia. }
+    { apply cov_mk. destruct (first_at true tpi m); lia. }
     rewrite (dec1_at false meth tpi tp A i HI HM HC).
     rewrite (block1_coord meth tp A i) by (cbn; try lia; exact HC).
     eexists; split; [reflexivity|]. cbn [a_ia a_ib a_k]. reflexivity. }
   subst i. destruct (first_at true tpi m) eqn:EF.
   - (* first subarea of a continuous area: it assigns its own left tie point *)
     assert (HC : cov A a = true).
-    { unfold cov, a_lo, A; cbn. rewrite EF. apply andb_true_iff; split; apply Nat.leb_le; lia. }
+    { apply cov_mk. try rewrite EF. cbn. lia. }
     rewrite (dec1_at false meth tpi tp A a HI HM HC).
     rewrite (block1_coord meth tp A a) by (cbn; try lia; exact HC).
     eexists; split; [reflexivity|]. cbn [a_ia a_ib a_k]. reflexivity.
@@ -332,12 +356,14 @@ Proof.
     pose proof (areas_member tpi 0 0 true m' (nth m' tpi 0) a Ha' Ha Hg') as HM'. cbn [plus] in HM'.
     set (A' := mkA (nth m' tpi 0) a m' (nsub tpi m') (first_at true tpi m')) in *.
     assert (HC' : cov A' a = true).
-    { unfold cov, a_lo, A'; cbn. apply andb_true_iff; split; apply Nat.leb_le; destruct (first_at true tpi m'); lia. }
+    { apply cov_mk. destruct (first_at true tpi m'); lia. }
     rewrite (dec1_at false meth tpi tp A' a HI HM' HC').
     rewrite (block1_coord meth tp A' a) by (cbn; try lia; exact HC').
-    eexists; split; [reflexivity|]. cbn [a_ia a_ib a_k].
-    rewrite (f1_morph _ _ _ _ _ 1%Q) by (apply s_one; lia). rewrite f1_at_1.
-    rewrite Nat.sub_diag. rewrite (f1_morph _ _ _ _ _ 0%Q) by apply s_zero. rewrite f1_at_0. reflexivity.
+    eexists; split; [reflexivity|]. subst A A'. cbn [a_ia a_ib a_k].
+    transitivity (tpv tp (S m')).
+    + etransitivity; [apply f1_morph; apply s_one; lia|apply f1_at_1].
+    + symmetry. rewrite Nat.sub_diag.
+      etransitivity; [apply f1_morph; apply s_zero|apply f1_at_0].
 Qed.
 
 Lemma linear_spec tpi tp m a b i :
@@ -356,3 +382,174 @@ Proof. intros. exact (interp_spec (Quadratic (Some ws)) tpi tp m a b i H H0 H1 H
 Lemma linear_spec_example :
   cell_eq (dec1 false Linear [0; 4; 7; 8; 11] [15#1; 135#1; 225#1; 255#1; 345#1]%Q 5) (165#1)%Q.
 Proof. eexists; split; [vm_compute; reflexivity|reflexivity]. Qed.
+
+(* ------------------------------------------------------------------ *)
+(* C16_tie_exact, C16_no_missing *)
+
+Lemma ok_adjacent : forall l joined m a, ok_from joined l = true -> nth_error l m = Some a ->
+  (m = 0 /\ joined = true) \/
+  (exists m' a', m = S m' /\ nth_error l m' = Some a' /\ 2 <= a - a') \/
+  (exists b, nth_error l (S m) = Some b /\ 2 <= b - a).
+Proof.
+  induction l as [|x r IH]; intros joined m a HO Hm; [destruct m; discriminate|].
+  destruct r as [|y r'].
+  - destruct m as [|m]; [|destruct m; discriminate]. cbn in HO. left. split; [reflexivity|exact HO].
+  - rewrite ok_from_cons2 in HO. destruct m as [|m'].
+    + cbn in Hm. inversion Hm; subst x. destruct (y - a <=? 1) eqn:E.
+      * apply andb_true_iff in HO as [HJ _]. left. split; [reflexivity|exact HJ].
+      * apply Nat.leb_gt in E. right. right. exists y. split; [reflexivity|lia].
+    + cbn [nth_error] in Hm. destruct (y - x <=? 1) eqn:E.
+      * apply andb_true_iff in HO as [_ HO].
+        destruct (IH false m' a HO Hm) as [[_ C]|[[m'' [a' [E1 [E2 E3]]]]|[b [E1 E2]]]]; [discriminate| |].
+        -- right. left. exists (S m''), a'. subst m'. split; [reflexivity|split; [exact E2|exact E3]].
+        -- right. right. exists b. split; [exact E1|exact E2].
+      * apply Nat.leb_gt in E.
+        destruct (IH true m' a HO Hm) as [[C _]|[[m'' [a' [E1 [E2 E3]]]]|[b [E1 E2]]]].
+        -- subst m'. cbn in Hm. inversion Hm; subst y. right. left. exists 0, x.
+           split; [reflexivity|split; [reflexivity|lia]].
+        -- right. left. exists (S m''), a'. subst m'. split; [reflexivity|split; [exact E2|exact E3]].
+        -- right. right. exists b. split; [exact E1|exact E2].
+Qed.
+
+Lemma cell_eq_trans c x y : cell_eq c x -> (x == y)%Q -> cell_eq c y.
+Proof. intros [z [E1 E2]] E. exists z. split; [exact E1|]. rewrite E2. exact E. Qed.
+
+Lemma tie_exact meth tpi tp m a :
+  incr tpi -> areas_ok tpi -> nth_error tpi m = Some a ->
+  cell_eq (dec1 false meth tpi tp a) (tpv tp m).
+Proof.
+  intros HI HO Hm.
+  destruct (ok_adjacent tpi false m a HO Hm) as [[_ C]|[[m' [a' [E1 [E2 E3]]]]|[b [E1 E2]]]]; [discriminate| |].
+  - subst m.
+    eapply cell_eq_trans; [apply (interp_spec meth tpi tp m' a' a a HI E2 Hm E3); lia|].
+    etransitivity; [apply f1_morph; apply s_one; lia|apply f1_at_1].
+  - eapply cell_eq_trans; [apply (interp_spec meth tpi tp m a b a HI Hm E1 E2); lia|].
+    rewrite Nat.sub_diag. etransitivity; [apply f1_morph; apply s_zero|apply f1_at_0].
+Qed.
+
+Lemma tie_exact_unguarded_refuted :
+  exists tpi tp m a, incr tpi /\ hd 0 tpi = 0 /\ nth_error tpi m = Some a /\
+                     dec1 false Linear tpi tp a = None.
+Proof.
+  exists [0; 1; 5], [0#1; 16#1; 32#1]%Q, 0, 0.
+  split; [repeat constructor|split; [reflexivity|split; reflexivity]].
+Qed.
+
+Lemma in_span_cov A i : In i (span A) -> cov A i = true.
+Proof.
+  unfold span, cov. intro H. apply in_seq in H.
+  apply andb_true_iff; split; apply Nat.leb_le; lia.
+Qed.
+
+Lemma no_missing b meth tpi tp i :
+  incr tpi -> hd 0 tpi = 0 -> areas_ok tpi -> i <= last tpi 0 ->
+  exists c, dec1 b meth tpi tp i = Some c.
+Proof.
+  intros HI H0 HO Hi.
+  assert (HS : In i (seq 0 (S (last tpi 0)))) by (apply in_seq; lia).
+  rewrite <- (partition tpi HI H0 HO) in HS.
+  apply in_concat in HS as [s [Hs1 Hs2]]. apply in_map_iff in Hs1 as [A [EA HA]]. subst s.
+  eexists. apply (dec1_at b meth tpi tp A i HI HA (in_span_cov _ _ Hs2)).
+Qed.
+
+(* ------------------------------------------------------------------ *)
+(* bounds (one subsampled dimension) *)
+
+Lemma pairs_cons2 {X} (x y : X) r : pairs (x :: y :: r) = (x, y) :: pairs (y :: r).
+Proof. reflexivity. Qed.
+
+Lemma nth_pairs {X} (d : X) : forall (l : list X) c, S c < length l ->
+  nth c (pairs l) (d, d) = (nth c l d, nth (S c) l d).
+Proof.
+  induction l as [|x r IH]; intros c H; [cbn in H; lia|].
+  destruct r as [|y r']; [cbn in H; lia|].
+  rewrite pairs_cons2. destruct c as [|c]; [reflexivity|].
+  cbn [nth]. rewrite IH by (cbn in *; lia). reflexivity.
+Qed.
+
+Lemma pairs_length {X} : forall (l : list X), length (pairs l) = length l - 1.
+Proof.
+  induction l as [|x r IH]; [reflexivity|]. destruct r as [|y r']; [reflexivity|].
+  rewrite pairs_cons2. cbn [length]. rewrite IH. cbn [length]. lia.
+Qed.
+
+Definition ncells (A : area) : nat := a_ib A + 1 - a_lo A.
+
+Lemma block1_bounds m tp A i : a_ia A < a_ib A -> cov A i = true ->
+  nth (i - a_lo A) (block1 true m tp A) [] =
+  [f1 m A (tpv tp (a_k A)) (tpv tp (S (a_k A))) (qn (i - a_lo A) / qn (ncells A))%Q;
+   f1 m A (tpv tp (a_k A)) (tpv tp (S (a_k A))) (qn (S (i - a_lo A)) / qn (ncells A))%Q].
+Proof.
+  intros Hab HC. unfold cov in HC. apply andb_true_iff in HC as [H1 H2].
+  apply Nat.leb_le in H1, H2. unfold block1.
+  assert (HS : s_size true A = ncells A + 1).
+  { unfold s_size, a_shape, ncells, a_lo in *. destruct (a_first A); cbn; lia. }
+  assert (HN : 1 <= ncells A) by (unfold ncells; lia).
+  assert (HI : i - a_lo A < ncells A) by (unfold ncells; lia).
+  rewrite (nth_map_gen (fun p : Q * Q => [fst p; snd p]) _ (0%Q, 0%Q))
+    by (rewrite pairs_length, raw1_length; lia).
+  rewrite nth_pairs by (rewrite raw1_length; lia).
+  cbn [fst snd]. rewrite !raw1_nth by lia. rewrite HS.
+  replace (ncells A + 1 - 1) with (ncells A) by lia. reflexivity.
+Qed.
+
+(* cfdm's reading of CF 8.3.9: the cells of a subarea are a..b if it starts a
+   continuous area and a+1..b otherwise; their bounds are n+1 equally spaced
+   points between the two bounds tie points *)
+Lemma bounds_spec meth tpi tp m a b i :
+  incr tpi -> nth_error tpi m = Some a -> nth_error tpi (S m) = Some b -> 2 <= b - a ->
+  let lo := if first_at true tpi m then a else S a in
+  let f := f1 meth (mkA a b m (nsub tpi m) (first_at true tpi m)) (tpv tp m) (tpv tp (S m)) in
+  lo <= i <= b ->
+  dec1 true meth tpi tp i =
+  Some [f (qn (i - lo) / qn (b + 1 - lo))%Q; f (qn (S (i - lo)) / qn (b + 1 - lo))%Q].
+Proof.
+  intros HI Ha Hb Hg lo f Hi.
+  pose proof (areas_member tpi 0 0 true m a b Ha Hb Hg) as HM. cbn [plus] in HM.
+  assert (HC : cov (mkA a b m (nsub tpi m) (first_at true tpi m)) i = true) by (apply cov_mk; exact Hi).
+  rewrite (dec1_at true meth tpi tp _ i HI HM HC).
+  rewrite block1_bounds by (cbn; try lia; exact HC).
+  unfold ncells, a_lo. cbn [a_ia a_ib a_k a_first]. reflexivity.
+Qed.
+
+(* consecutive cells of one subarea share a bound *)
+Lemma bounds_contiguous meth tpi tp m a b i :
+  incr tpi -> nth_error tpi m = Some a -> nth_error tpi (S m) = Some b -> 2 <= b - a ->
+  (if first_at true tpi m then a else S a) <= i -> S i <= b ->
+  exists x y z, dec1 true meth tpi tp i = Some [x; y] /\ dec1 true meth tpi tp (S i) = Some [y; z].
+Proof.
+  intros HI Ha Hb Hg H1 H2.
+  pose proof (bounds_spec meth tpi tp m a b i HI Ha Hb Hg ltac:(lia)) as P1.
+  pose proof (bounds_spec meth tpi tp m a b (S i) HI Ha Hb Hg ltac:(lia)) as P2.
+  cbv zeta in P1, P2.
+  replace (S i - (if first_at true tpi m then a else S a))
+    with (S (i - (if first_at true tpi m then a else S a))) in P2 by lia.
+  eexists _, _, _. split; [exact P1|exact P2].
+Qed.
+
+(* the bounds tie points are reproduced: the lower bound of the first cell of
+   a continuous area, and the upper bound of the last cell of every subarea -
+   which is also the lower bound of the next cell when the next subarea
+   belongs to the same continuous area *)
+Lemma bounds_tie meth tpi tp m a b :
+  incr tpi -> nth_error tpi m = Some a -> nth_error tpi (S m) = Some b -> 2 <= b - a ->
+  let lo := if first_at true tpi m then a else S a in
+  exists x0 y0 x1 y1,
+    dec1 true meth tpi tp lo = Some [x0; y0] /\ (x0 == tpv tp m)%Q /\
+    dec1 true meth tpi tp b = Some [x1; y1] /\ (y1 == tpv tp (S m))%Q.
+Proof.
+  intros HI Ha Hb Hg lo.
+  assert (Hlo : lo <= b) by (unfold lo; destruct (first_at true tpi m); lia).
+  pose proof (bounds_spec meth tpi tp m a b lo HI Ha Hb Hg ltac:(fold lo; lia)) as P1.
+  pose proof (bounds_spec meth tpi tp m a b b HI Ha Hb Hg ltac:(fold lo; lia)) as P2.
+  cbv zeta in P1, P2. fold lo in P1, P2.
+  eexists _, _, _, _. split; [exact P1|]. split; [|split; [exact P2|]].
+  - rewrite Nat.sub_diag. etransitivity; [apply f1_morph; apply s_zero|apply f1_at_0].
+  - replace (S (b - lo)) with (b + 1 - lo) by lia.
+    etransitivity; [apply f1_morph; apply s_one; lia|apply f1_at_1].
+Qed.
+
+Lemma bounds_example :
+  map (dec1 true Linear [0; 3; 7] [0#1; 16#1; 32#1]%Q) [0; 3; 4; 7] =
+  [Some [0#4; 16#4]; Some [48#4; 64#4]; Some [64#4; 80#4]; Some [112#4; 128#4]]%Q.
+Proof. vm_compute. reflexivity. Qed.
